@@ -14,7 +14,7 @@ from hgsim.util import canon, digest
 
 ID = "C02"
 LEVEL = "exploration"
-BUDGET = {"quick": (8, 160, 45), "thorough": (16, 12000, 600)}
+BUDGET = {"quick": (8, 400, 90), "thorough": (16, 12000, 600)}
 SWEEP_CAP = {"quick": 16, "thorough": 120}
 RULE = (
     "seeded general programs (DAG + route/ifelse gates incl. multi-target/END/None + ring loops + nested graphs to depth 2 + mapped "
